@@ -19,7 +19,8 @@
 (*          sees the call's own input messages and answers "s<w>:atag"     *)
 (* Apply(S, e) consumes the per-call projection of the observations        *)
 (* (events are attributed to a call by a key carried in the context):      *)
-(*   case   id, agent "react"|"host", tag, user, n, d, w, modifier         *)
+(*   case   id, agent "react"|"host", tag, user, n, d, w, modifier, alt    *)
+(*          (alt: this caller passes its own tool set with WithToolList)   *)
 (*   call   mode "generate"|"stream"                                       *)
 (*   mcall  who, input <<msg>>, tags (tags occurring in the input)         *)
 (*   tool   name, args, out, tags                                          *)
@@ -45,7 +46,8 @@ RenderAll(ms) == [i \in 1..Len(ms) |-> Render(ms[i])]
 UserR(c) == Msg("user", c.user)     \* "q|tag|n|d", or one message shared by all callers of a round (the tag is then carried by the context)
 CallR(c, j) == [id |-> "c" \o c.tag \o "." \o ToString(j), name |-> (IF c.d = j THEN "trd" ELSE "t"), args |-> c.tag \o "." \o ToString(j)]
 AsstR(c, j) == [role |-> "assistant", content |-> "", calls |-> <<CallR(c, j)>>, tcid |-> ""]
-OutR(c, j) == CallR(c, j).name \o "(" \o CallR(c, j).args \o ")"
+\* the tools echo name(args); the tool set a caller passes per call (WithToolList, c.alt) has the same names and echoes "alt:" name(args)
+OutR(c, j) == (IF c.alt THEN "alt:" ELSE "") \o CallR(c, j).name \o "(" \o CallR(c, j).args \o ")"
 ToolR(c, j) == [role |-> "tool", content |-> OutR(c, j), calls |-> <<>>, tcid |-> CallR(c, j).id]
 FinalR(c) == Msg("assistant", "a" \o c.tag)
 Mod(c, h) == IF c.modifier THEN <<Msg("system", "sys")>> \o h ELSE h
@@ -69,7 +71,7 @@ HostExp(c) ==
 
 Expected(c) == IF c.agent = "host" THEN HostExp(c) ELSE ReactExp(c, 1, <<UserR(c)>>)
 
-NoCase == [id |-> "", agent |-> "react", tag |-> "", user |-> "", n |-> 0, d |-> 0, w |-> 0, modifier |-> FALSE]
+NoCase == [id |-> "", agent |-> "react", tag |-> "", user |-> "", n |-> 0, d |-> 0, w |-> 0, modifier |-> FALSE, alt |-> FALSE]
 Idle == [id |-> "", open |-> FALSE, bad |-> "", c |-> NoCase, incall |-> FALSE, p |-> 1, exp |-> <<>>, answers |-> <<>>, ncalls |-> 0, mode |-> ""]
 Bad(S, why) == [S EXCEPT !.bad = why]
 Foreign(S, e) == \E t \in Range(e.tags) : t # S.c.tag
@@ -88,6 +90,7 @@ ToolRule(S, e) ==
   ELSE IF Foreign(S, e) THEN Bad(S, "tool-arguments-of-another-call")
   ELSE IF ~Due(S, "tool") THEN Bad(S, "tool-run-out-of-turn")
   ELSE IF e.name # Cur(S).name \/ e.args # Cur(S).args THEN Bad(S, "tool-call-is-not-the-one-this-calls-script-asks-for")
+  ELSE IF e.out # Cur(S).out THEN Bad(S, "call-answered-by-the-tool-set-of-another-call")
   ELSE [S EXCEPT !.p = @ + 1]
 AnswerRule(S, e) ==
   IF ~S.incall THEN Bad(S, "answer-outside-a-call")
